@@ -865,6 +865,8 @@ def gen_target(r, kind=None) -> dict:
         va = r.choice([6, 6, 7, 8, 8, 10])
         t.update(descs=gen_abi_descs(r, n), va=va, vb=r.choice([x for x in (6, 8, 9) if (x >= 8) != (va >= 8)]),
                  bare=r.random() < 0.7)
+    elif kind == "refused":
+        t.update(version=r.choice([4, 6, 8, 10]))
     elif kind == "session":
         t.update(ops=gen_session(r, r.choice([8, 12, 18])))
     elif kind == "recspill":
@@ -882,8 +884,8 @@ def gen_target(r, kind=None) -> dict:
 # are opaque to the model (they cannot raise inside a subroutine body: the generated recipes never raise)
 
 HISTORY_KINDS = ["nothing", "objects", "compiled-ok", "fail-build", "fail-version", "fail-overflow", "raise-fp",
-                 "raise-scratch", "probe", "router", "fail-late", "mixed", "twin", "shared-options", "many-slots"]
-QUICK_HISTORIES = ["nothing", "compiled-ok", "fail-version", "fail-overflow", "raise-fp", "router", "twin", "shared-options", "many-slots"]
+                 "raise-scratch", "probe", "router", "fail-late", "mixed", "twin", "shared-options", "many-slots", "fail-in-loop"]
+QUICK_HISTORIES = ["nothing", "compiled-ok", "fail-version", "fail-overflow", "raise-fp", "router", "twin", "shared-options", "many-slots", "fail-in-loop"]
 HBASE = 500  # names of history objects (targets use names below 100)
 
 
@@ -912,6 +914,10 @@ def gen_history(r, kind, target=None) -> list[dict]:
     acts: list[dict] = []
     op = lambda w: acts.append({"op": w})  # noqa: E731
     if kind == "nothing":
+        return acts
+    if kind == "fail-in-loop":
+        # compilations that raise from INSIDE a loop (condition, body, start, step) and inside a routine called from a loop
+        acts.append({"opaque": "fail-in-loop", "n": r.randrange(1, 4)})
         return acts
     if kind == "many-slots":
         # earlier activity of the process has used up slot ids: the target's automatic ids straddle a power of ten (999/1000, 9999/10000)
@@ -1028,6 +1034,18 @@ def run_opaque(pt, a):
     try:
         if k == "garbage":
             return [pt.Int(i) + pt.Int(i + 1) for i in range(a["n"])]
+        if k == "fail-in-loop":
+            res = []
+            bad = lambda: pt.Pop(pt.BytesZero(pt.Int(4)))      # noqa: E731  needs version 4: a version error at version 2
+            shapes = [lambda: pt.While(pt.Int(1)).Do(bad()), lambda: pt.For(pt.Pop(pt.Int(0)), pt.Int(1), bad()).Do(pt.Pop(pt.Int(1))),
+                      lambda: pt.While(pt.Seq(bad(), pt.Int(1))).Do(pt.Pop(pt.Int(1))),
+                      lambda: pt.While(pt.Int(1)).Do(pt.While(pt.Int(1)).Do(pt.Seq(bad(), pt.Break())))]
+            for i in range(a["n"]):
+                try:
+                    res.append(pt.compileTeal(pt.Seq(shapes[i % len(shapes)](), pt.Int(1)), pt.Mode.Application, version=2))
+                except own as e:
+                    res.append(e)
+            return res
         if k == "slots-until":
             made = []
             while pt.ScratchSlot.nextSlotId < a["value"]:
@@ -1212,6 +1230,20 @@ def run_target(pt, t) -> dict:
             out["c3"] = outcome(lambda: pt.compileTeal(holder["ast"], pt.Mode.Application, version=t["version"], **kw))
         out["rebuild"] = outcome(lambda: pt.compileTeal(build(), pt.Mode.Application, version=t["version"], **kw))
         same.append(["c1", "c2", "c3", "rebuild"])
+    elif k == "refused":
+        # programs every fresh process REFUSES (Break / Continue outside a loop, a value-less Return in a value routine ...): whether a
+        # source is refused is part of what it compiles to, and must not depend on what failed or succeeded before
+        v = t["version"]
+        progs = {
+            "stray-break": lambda: pt.Seq(pt.Break(), pt.Int(1)),
+            "stray-continue": lambda: pt.Seq(pt.If(pt.Txn.fee()).Then(pt.Continue()), pt.Int(1)),
+            "break-after-loop": lambda: pt.Seq(pt.While(pt.Int(0)).Do(pt.Pop(pt.Int(1))), pt.Break(), pt.Int(1)),
+            "break-in-routine": lambda: pt.Seq(pt.Subroutine(pt.TealType.none)(lambda: pt.Break())(), pt.Int(1)),
+        }
+        for nm, mk in progs.items():
+            out[nm] = outcome(lambda mk=mk: pt.compileTeal(mk(), pt.Mode.Application, version=v))
+            out[nm + "/again"] = outcome(lambda mk=mk: pt.compileTeal(mk(), pt.Mode.Application, version=v))
+            same.append([nm, nm + "/again"])
     elif k == "session":
         S = RealSession()
         S.env, S.info, S.routers = {}, {}, {}
@@ -1455,7 +1487,7 @@ def part_b(rep: Report, n_targets: int, hist_kinds: list[str], hashseeds: list[s
     """targets are processed in waves; a thorough run stops launching waves when its time budget is used up
     (the evidence reports the number of targets actually run)"""
     P = Predictor()
-    kinds_cycle = ["recipe", "abi", "router", "recspill", "abi-chain", "recipe-dyn", "session", "router", "tmpl", "abi", "probe", "optshare", "recipe", "session", "recspill"]
+    kinds_cycle = ["recipe", "abi", "router", "recspill", "abi-chain", "recipe-dyn", "session", "router", "tmpl", "refused", "probe", "optshare", "recipe", "session", "recspill", "abi"]
     t_start = time.time()
     done = 0
     for w0 in range(0, n_targets, wave):
